@@ -44,6 +44,9 @@ def tasks(ctx, quick):
                       "again": i % 4 == 2, "reuse_args": i % 5 == 1})
         if form != 0:
             items[-1]["wform"] = ["array", "list", "asis", "tuple", "array", "asis"][(i // 3) % 6]
+        if form == 0 and i % 6 == 3:
+            items[-1]["wavelength"] = 1.798       # ... and the calculator is built without naming it
+            items[-1]["omit_wavelength"] = True
         if form == 0 and i % 6 == 0:
             items[-1]["wavelength"] = rng.choice([1, 2, 5, 12])
             items[-1]["wtype"] = rng.choice(["int64", "float32", "int32", "float64"])
